@@ -2,23 +2,23 @@
 (***************************************************************************)
 (* The Mode S downlink frame grammar (ICAO Annex 10 Vol IV 3.1.2.3, the    *)
 (* extended squitter ME formats of Doc 9871 / DO-260B, the Comm-B register *)
-(* formats of Doc 9871 Table A-2-x), written from the standards.           *)
+(* formats of Doc 9871 Appendix A), written from the standards.            *)
 (*                                                                         *)
 (*  - LenFor, DFOf          : the length rule (C01)                        *)
 (*  - ShownDF, ShownICAO    : what a record of the frame must announce as  *)
 (*                            downlink format and 24-bit address (C07)     *)
-(*  - Shapes                : the finite *shape space* that TLC enumerates *)
+(*  - AllShapes             : the finite *shape space* that TLC enumerates *)
 (*                            exhaustively (C01, C07, C08): every downlink *)
 (*                            format x control field x type code x subtype *)
 (*                            x ADS-B version x reserved-bit hypothesis,   *)
-(*                            every Comm-B register status pattern.        *)
+(*                            every Comm-B register availability pattern.  *)
 (*                                                                         *)
 (* Bit offsets count from 0 = first transmitted bit.  A shape pins some    *)
 (* fields (offset, width, value) and lists the remaining fields of the     *)
 (* standard's layout as free (offset, width); the harness supplies the     *)
 (* free bits (fills, field extremes), never an expected value.             *)
 (***************************************************************************)
-EXTENDS Naturals, Integers, Sequences, FiniteSets, TLC, CRC24
+EXTENDS Naturals, Integers, Sequences, FiniteSets, TLC, SequencesExt, CRC24
 
 (* ------------------------------------------------------------------ *)
 (* Length rule and announced identity                                  *)
@@ -26,8 +26,8 @@ EXTENDS Naturals, Integers, Sequences, FiniteSets, TLC, CRC24
 
 (* 3.1.2.3.2.1.1: formats 16..31 (first bit 1) are 112 bits, 0..15 are 56. *)
 LenFor(df) == IF df >= 16 THEN 14 ELSE 7
-DFOf(bytes) == bytes[1] \div 8
 DFOfByte(b0) == b0 \div 8
+DFOf(bytes) == DFOfByte(bytes[1])
 
 (* AA: address announced, bits 9..32 of DF11 / DF17 / DF18 (3.1.2.5.2.2.2, *)
 (* 3.1.2.8.6.1; for DF18 the AA field that follows the control field).     *)
@@ -59,7 +59,7 @@ Lower(s) == [i \in 1..Len(s) |-> LowerChar(s[i])]
 RECURSIVE SumSeq(_)
 SumSeq(ws) == IF ws = <<>> THEN 0 ELSE Head(ws) + SumSeq(Tail(ws))
 
-(* offsets of consecutive fields of widths ws starting at off *)
+(* <<offset, width>> of consecutive fields of widths ws starting at off *)
 RECURSIVE Lay(_, _)
 Lay(off, ws) == IF ws = <<>> THEN <<>>
                 ELSE << <<off, Head(ws)>> >> \o Lay(off + Head(ws), Tail(ws))
@@ -68,32 +68,37 @@ Lay(off, ws) == IF ws = <<>> THEN <<>>
 RECURSIVE Blob(_)
 Blob(n) == IF n = 0 THEN <<>> ELSE IF n <= 16 THEN <<n>> ELSE <<16>> \o Blob(n - 16)
 
-(* A shape from a complete layout (widths covering the whole frame) and a  *)
-(* partial assignment pv : field index -> value.                           *)
-MkShape(cls, df, ws, pv, seal) ==
-  LET f == Lay(0, ws)
-      P == {i \in 1..Len(ws) : i \in DOMAIN pv}
-      pinIdx == SelectSeq([i \in 1..Len(ws) |-> i], LAMBDA i : i \in P)
-      freeIdx == SelectSeq([i \in 1..Len(ws) |-> i], LAMBDA i : i \notin P)
-  IN [cls |-> cls, df |-> df, seal |-> seal, kind |-> "shape",
-      pins |-> [k \in 1..Len(pinIdx) |-> <<f[pinIdx[k]][1], f[pinIdx[k]][2], pv[pinIdx[k]]>>],
-      free |-> [k \in 1..Len(freeIdx) |-> f[freeIdx[k]]],
-      wins |-> <<>>]
-
+Idx(n) == [i \in 1..n |-> i]
+NoPins == [i \in {} |-> 0]
 Shift(pv, k) == [i \in {j + k : j \in DOMAIN pv} |-> pv[i - k]]
 Merge(f, g) == [i \in (DOMAIN f) \cup (DOMAIN g) |-> IF i \in DOMAIN f THEN f[i] ELSE g[i]]
 Str(n) == ToString(n)
 
+(* A shape from a complete layout (widths covering the whole frame) and a  *)
+(* partial assignment pv : field index -> value.  seal: the frame carries  *)
+(* a parity field that the sender computes (DF17/18), so the harness also  *)
+(* submits the frame with that field recomputed.                           *)
+MkShape(cls, df, ws, pv, seal) ==
+  LET f == Lay(0, ws)
+      pinIdx == SelectSeq(Idx(Len(ws)), LAMBDA i : i \in DOMAIN pv)
+      freeIdx == SelectSeq(Idx(Len(ws)), LAMBDA i : i \notin DOMAIN pv)
+  IN [cls |-> cls, df |-> df, seal |-> seal,
+      pins |-> [k \in 1..Len(pinIdx) |-> <<f[pinIdx[k]][1], f[pinIdx[k]][2], pv[pinIdx[k]]>>],
+      free |-> [k \in 1..Len(freeIdx) |-> f[freeIdx[k]]],
+      wins |-> <<>>]
+
+WithWins(s, w) == [s EXCEPT !.wins = w]
+
 (* ------------------------------------------------------------------ *)
-(* Headers (Annex 10 Vol IV, figure 3-8 and the format descriptions)   *)
-(* field 1 is DF (5 bits), field 2 the following 3-bit field           *)
+(* Headers (Annex 10 Vol IV figure 3-8 and the format descriptions);   *)
+(* field 1 is DF (5 bits)                                              *)
 (* ------------------------------------------------------------------ *)
 HdrShort(df) ==
   CASE df = 0          -> <<5, 1, 1, 1, 3, 2, 4, 2, 13, 24>>          \* VS CC - SL - RI - AC AP
     [] df \in {4, 5}   -> <<5, 3, 5, 6, 13, 24>>                      \* FS DR UM AC/ID AP
     [] df = 11         -> <<5, 3, 24, 24>>                            \* CA AA PI
     [] OTHER           -> <<5, 3>> \o Blob(24) \o <<24>>
-(* the part of a long frame before the 56-bit ME/MB/MV field: 32 bits *)
+(* the 32 bits of a long frame before the 56-bit ME / MB / MV field *)
 HdrLong(df) ==
   CASE df = 16          -> <<5, 1, 2, 3, 2, 4, 2, 13>>                \* VS - SL - RI - AC
     [] df \in {17, 18}  -> <<5, 3, 24>>                               \* CA/CF AA
@@ -101,65 +106,93 @@ HdrLong(df) ==
     [] OTHER            -> <<5, 3, 8, 16>>
 Tail24 == <<24>>                                                      \* AP / PI
 
-(* For headers whose second field is not 3 bits wide (DF0, DF16) the     *)
-(* enumeration pins the three single bits / the first fields instead.    *)
-SecondFieldPins(df, x) ==   \* x in 0..7 = bits 5..7 of the frame
+(* the three bits after DF, value x, as pins on the header's own fields *)
+SecondFieldPins(df, x) ==
   CASE df = 0  -> (2 :> (x \div 4)) @@ (3 :> ((x \div 2) % 2)) @@ (4 :> (x % 2))
     [] df = 16 -> (2 :> (x \div 4)) @@ (3 :> (x % 4))
     [] OTHER   -> (2 :> x)
 
-(* ------------------------------------------------------------------ *)
-(* ME field of the extended squitter (56 bits), by type code           *)
-(* ------------------------------------------------------------------ *)
-PosAir == <<2, 1, 12, 1, 1, 17, 17>>      \* SS SAF/NICb ALT T F LAT LON
-PosSurf == <<7, 1, 7, 1, 1, 17, 17>>      \* MOV S TRK T F LAT LON
-Ident == <<6, 6, 6, 6, 6, 6, 6, 6>>
-Velocity == <<1, 1, 3, 1, 10, 1, 10, 1, 1, 9, 2, 1, 7>>   \* IC IFR NAC | 22 bits by subtype | VrSrc S VR - S dAlt
-Status61 == <<3, 13, 16, 16>>             \* emergency state, Mode A code, reserved
-(* target state and status (DO-260B 2.2.3.2.7.1), after TC: subtype is 2   *)
-(* bits, the third bit of the enumerated 3-bit field is the SIL supplement *)
-TSS == <<1, 11, 9, 1, 9, 4, 1, 2, 1, 1, 1, 1, 1, 1, 1, 1, 2>>
-(* operational status (DO-260B 2.2.3.2.7.2), after TC and subtype:         *)
-(* CC 16 = 2 res, 2, 2 res, 2, 2, 6 ; OM 16 = 2 res, 4, 2, 8 ; version 3 ; *)
-(* NICs 1, NACp 4, GVA/BAQ 2, SIL 2, NICbaro/TAH 1, HRD 1, SILs 1, res 1   *)
-OpStatus == <<2, 2, 2, 2, 2, 6, 2, 4, 2, 8, 3, 1, 4, 2, 2, 1, 1, 1, 1>>
+DefinedDF == {0, 4, 5, 11, 16, 17, 18, 19, 20, 21, 24}
 
-(* ME layout: field 1 = TC (5), field 2 = the 3-bit field after it *)
+(* every downlink format x every value of the three bits after DF, the     *)
+(* rest of the frame free                                                  *)
+BaseShapes ==
+  {LET ws == IF df >= 16 THEN HdrLong(df) \o <<8, 16, 16, 16>> \o Tail24 ELSE HdrShort(df)
+       s == MkShape(Str(df) \o ".x" \o Str(x), df, ws, Merge((1 :> df), SecondFieldPins(df, x)),
+                    df \in {17, 18})
+   IN IF x = 0 /\ df \in DefinedDF
+      THEN WithWins(s, IF df >= 16 THEN <<8, 16, 32, 48, 64, 72>> ELSE <<8, 16>>)
+      ELSE s
+     : df \in 0..31, x \in 0..7}
+
+(* ------------------------------------------------------------------ *)
+(* ME field of the extended squitter (56 bits), by type code;          *)
+(* field 1 = TC (5 bits), field 2 = the three bits after it            *)
+(* ------------------------------------------------------------------ *)
+Ident == <<6, 6, 6, 6, 6, 6, 6, 6>>
+(* airborne position: SS 2 + SAF/NICb 1 | ALT 12, T, F, LAT 17, LON 17   *)
+PosAirRest == <<12, 1, 1, 17, 17>>
+(* surface position: MOV 7 = 3 + 4 | S, TRK 7, T, F, LAT, LON            *)
+PosSurfRest == <<4, 1, 7, 1, 1, 17, 17>>
+(* velocity: subtype 3 | IC IFR NAC 3 | 22 bits by subtype = 1 10 1 10 |  *)
+(* VrSrc, S, VR 9, reserved 2, S, dAlt 7                                  *)
+VelocityRest == <<1, 1, 3, 1, 10, 1, 10, 1, 1, 9, 2, 1, 7>>
+(* aircraft status: subtype 3 | emergency 3, Mode A code 13, reserved 32  *)
+StatusRest == <<3, 13, 16, 16>>
+(* target state and status (DO-260B 2.2.3.2.7.1): subtype 2 + SIL supp 1 | *)
+(* alt type, alt 11, baro 9, hdg status, hdg 9, NACp 4, NICbaro, SIL 2,    *)
+(* mode status, AP, VNAV, ALT hold, ADS-R, approach, TCAS, LNAV, res 2     *)
+TSSRest == <<1, 11, 9, 1, 9, 4, 1, 2, 1, 1, 1, 1, 1, 1, 1, 1, 2>>
+(* operational status (DO-260B 2.2.3.2.7.2): subtype 3 |                   *)
+(* CC 16 = res 2, 2, res 2, 2, 2, 6 ; OM 16 = res 2, 4, SDA 2, 8 ;         *)
+(* version 3 ; NICs, NACp 4, GVA/BAQ 2, SIL 2, NICbaro/TAH, HRD, SILs, res *)
+OpStatusRest == <<2, 2, 2, 2, 2, 6, 2, 4, 2, 8, 3, 1, 4, 2, 2, 1, 1, 1, 1>>
+
 MELayout(tc) ==
   <<5, 3>> \o
-  (CASE tc \in 1..4                        -> Ident
-     [] tc \in 5..8                        -> <<4>> \o Tail(PosSurf)      \* MOV continues: 3 + 4
-     [] tc = 0 \/ tc \in 9..18 \/ tc \in 20..22 -> <<9>> \o Tail(Tail(Tail(PosAir)))  \* ALT continues: 3 + 9
-     [] tc = 19                            -> Velocity
-     [] tc = 28                            -> Status61
-     [] tc = 29                            -> TSS
-     [] tc = 31                            -> OpStatus
-     [] OTHER                              -> Blob(48))
+  (CASE tc \in 1..4                                  -> Ident
+     [] tc \in 5..8                                  -> PosSurfRest
+     [] tc = 0 \/ tc \in 9..18 \/ tc \in 20..22      -> PosAirRest
+     [] tc = 19                                      -> VelocityRest
+     [] tc = 28                                      -> StatusRest
+     [] tc = 29                                      -> TSSRest
+     [] tc = 31                                      -> OpStatusRest
+     [] OTHER                                        -> Blob(48))
 
-(* the standard's reserved bits of the operational status message are zero *)
-OpStatusReservedZero == (3 :> 0) @@ (5 :> 0) @@ (9 :> 0)   \* indices within MELayout(31)
+(* indices within MELayout(31) *)
+OpStatusReservedZero == (3 :> 0) @@ (5 :> 0) @@ (9 :> 0)
 OpStatusVersionIdx == 13
+OpPins(st, v, z) ==
+  Merge((1 :> 31) @@ (2 :> st),
+        Merge((OpStatusVersionIdx :> v), IF z = 1 THEN OpStatusReservedZero ELSE NoPins))
+OpName(st, v, z) == ".tc31.st" \o Str(st) \o ".v" \o Str(v) \o (IF z = 1 THEN ".rz" ELSE ".rf")
+
+(* type codes whose shapes also get the exhaustive 16-bit windows *)
+WindowTC == {0, 1, 5, 9, 19, 20, 23, 24, 25, 28, 29, 30}
 
 ESShapes(df) ==
-  LET base(c, tc, st) == (1 :> df) @@ (2 :> c) @@ Shift((1 :> tc) @@ (2 :> st), 3)
-      name(c, tc, st) == Str(df) \o ".c" \o Str(c) \o ".tc" \o Str(tc) \o ".st" \o Str(st)
-      plain == {MkShape(name(c, tc, st), df, HdrLong(df) \o MELayout(tc) \o Tail24, base(c, tc, st), TRUE)
+  LET frame(tc) == HdrLong(df) \o MELayout(tc) \o Tail24
+      hdr(c) == (1 :> df) @@ (2 :> c)
+      plain == {LET s == MkShape(Str(df) \o ".c" \o Str(c) \o ".tc" \o Str(tc) \o ".st" \o Str(st), df,
+                                 frame(tc), Merge(hdr(c), Shift((1 :> tc) @@ (2 :> st), 3)), TRUE)
+                IN IF df = 17 /\ c = 5 /\ tc \in WindowTC /\ (st = 0 \/ tc = 19)
+                   THEN WithWins(s, <<48, 64, 72>>) ELSE s
                   : c \in 0..7, tc \in 0..30, st \in 0..7}
-      ops == {MkShape(name(c, 31, st) \o ".v" \o Str(v) \o (IF z = 1 THEN ".rz" ELSE ".rf"), df,
-                      HdrLong(df) \o MELayout(31) \o Tail24,
-                      Merge(base(c, 31, st),
-                            Shift(Merge((OpStatusVersionIdx :> v),
-                                        IF z = 1 THEN OpStatusReservedZero ELSE <<>>), 3)), TRUE)
+      ops == {LET s == MkShape(Str(df) \o ".c" \o Str(c) \o OpName(st, v, z), df,
+                               frame(31), Merge(hdr(c), Shift(OpPins(st, v, z), 3)), TRUE)
+              IN IF df = 17 /\ c = 5 /\ st \in 0..1 /\ v \in 0..2 /\ z = 1
+                 THEN WithWins(s, <<48, 64, 72>>) ELSE s
                 : c \in 0..7, st \in 0..7, v \in 0..7, z \in 0..1}
   IN plain \cup ops
 
 (* ------------------------------------------------------------------ *)
 (* MB field of Comm-B replies (56 bits): register hypotheses           *)
-(* Doc 9871 Table A-2-16 (1,0) 23 (1,7) 24/25 (1,8 1,9) 32 (2,0)       *)
-(* 48 (3,0) 64 (4,0) 68 (4,4) 69 (4,5) 80 (5,0) 96 (6,0)               *)
+(* (Doc 9871 Appendix A: registers 1,0 1,7 1,8 1,9 2,0 3,0 4,0 4,4 4,5 *)
+(* 5,0 6,0)                                                            *)
 (* ------------------------------------------------------------------ *)
-(* A register with status bits: widths, status index -> indices of the   *)
-(* data fields it governs, indices of reserved (zero) fields.            *)
+(* A register with status bits: widths; st = indices of the status bits; *)
+(* data[k] = indices of the fields governed by st[k]; res = reserved     *)
+(* (zero) fields.                                                        *)
 Reg40 == [ws |-> <<1, 12, 1, 12, 1, 12, 8, 1, 1, 1, 1, 2, 1, 2>>,
           st |-> <<1, 3, 5>>, data |-> << {2}, {4}, {6} >>, res |-> {7, 12}]
 Reg50 == [ws |-> <<1, 1, 9, 1, 1, 10, 1, 10, 1, 1, 9, 1, 10>>,
@@ -172,29 +205,28 @@ Reg45 == [ws |-> <<1, 2, 1, 2, 1, 2, 1, 2, 1, 2, 1, 1, 9, 1, 11, 1, 12, 5>>,
           st |-> <<1, 3, 5, 7, 9, 11, 14, 16>>,
           data |-> << {2}, {4}, {6}, {8}, {10}, {12, 13}, {15}, {17} >>, res |-> {18}]
 StatusRegs == << <<"40", Reg40>>, <<"50", Reg50>>, <<"60", Reg60>>, <<"44", Reg44>>, <<"45", Reg45>> >>
+NRegs == Len(StatusRegs)
 
-(* status pattern S (set of positions in r.st that are "available"): the  *)
-(* status bit is 1; otherwise status and data are zero (Doc 9871 A.2.1:   *)
-(* "if the parameter is not available all bits shall be set to zero").    *)
+(* availability pattern S (set of positions k in r.st): status bit 1 for  *)
+(* k in S; otherwise status and data are zero (Doc 9871 A.2.1: when a     *)
+(* parameter is not available all its bits are set to zero).              *)
+StatusPos(r, i) == CHOOSE k \in 1..Len(r.st) : r.st[k] = i
 RegPins(r, S) ==
   LET n == Len(r.st)
-      stat == [i \in {r.st[k] : k \in 1..n} |-> IF (CHOOSE k \in 1..n : r.st[k] = i) \in S THEN 1 ELSE 0]
-      zeroData == UNION {r.data[k] : k \in (1..n) \ S}
-  IN Merge(stat, [i \in zeroData \cup r.res |-> 0])
-RECURSIVE BitsOfSet(_, _, _)
-BitsOfSet(S, k, n) == IF k > n THEN <<>> ELSE <<IF k \in S THEN 1 ELSE 0>> \o BitsOfSet(S, k + 1, n)
-RECURSIVE DigitStr(_)
-DigitStr(bs) == IF bs = <<>> THEN "" ELSE Str(Head(bs)) \o DigitStr(Tail(bs))
+      stat == [i \in {r.st[k] : k \in 1..n} |-> IF StatusPos(r, i) \in S THEN 1 ELSE 0]
+      zeros == UNION {r.data[k] : k \in (1..n) \ S} \cup r.res
+  IN Merge(stat, [i \in zeros |-> 0])
+RECURSIVE PatternStr(_, _, _)
+PatternStr(S, k, n) == IF k > n THEN "" ELSE (IF k \in S THEN "1" ELSE "0") \o PatternStr(S, k + 1, n)
 
-(* bit-level view, used to combine two registers' "everything available" *)
-(* patterns when they do not contradict each other                       *)
-BitPins(r, S) ==   \* set of <<mb bit offset, value>>
+(* bit-level view <<MB bit offset, value>>, used to combine two registers  *)
+BitPins(r, S) ==
   LET f == Lay(0, r.ws)
       pv == RegPins(r, S)
   IN UNION {{<<f[i][1] + k, BitOf(pv[i], f[i][2] - 1 - k)>> : k \in 0..(f[i][2] - 1)} : i \in DOMAIN pv}
 AllOn(r) == BitPins(r, 1..Len(r.st))
 Compatible(A, B) == \A a \in A, b \in B : a[1] = b[1] => a[2] = b[2]
-(* maximal runs of unpinned bits in 0..55 cut at 16 *)
+(* maximal runs of unpinned bits of 0..55, cut at 16 bits *)
 RECURSIVE Runs(_, _, _)
 Runs(pinned, i, start) ==   \* start = -1: not inside a run
   IF i = 56 THEN (IF start >= 0 THEN << <<start, 56 - start>> >> ELSE <<>>)
@@ -204,70 +236,100 @@ Runs(pinned, i, start) ==   \* start = -1: not inside a run
             THEN << <<start, 16>> >> \o Runs(pinned, i + 1, i)
             ELSE Runs(pinned, i + 1, IF start >= 0 THEN start ELSE i)
 
-CommBHeaderPins(df) == (1 :> df)
-(* the MB part of the frame starts at bit 32, after the 5 header fields *)
+(* the MB field starts at bit 32, after the 5 header fields *)
 CommBShape(cls, df, mbws, mbpv) ==
   MkShape(Str(df) \o ".mb" \o cls, df, HdrLong(df) \o mbws \o Tail24,
-          Merge(CommBHeaderPins(df), Shift(mbpv, 5)), FALSE)
+          Merge((1 :> df), Shift(mbpv, 5)), FALSE)
 
-(* 13-bit altitude codes used to make header AC and an MB laid out as BDS  *)
-(* 0,5 agree: 25-ft codes (Q = 1) N = 1560 (38000 ft), N = 2047, and the   *)
-(* Gillham code of 0 ft; the 12-bit ME altitude is the AC without M bit.   *)
-AC13Samples == {6320, 8127, 1568 - 1568 + 2056}
+PairShape(df, i, j) ==
+  LET U == AllOn(StatusRegs[i][2]) \cup AllOn(StatusRegs[j][2])
+      runs == Runs({u[1] : u \in U}, 0, -1)
+      order == SortSeq(SetToSeq(U), LAMBDA a, b : a[1] < b[1])
+  IN [cls |-> Str(df) \o ".mb" \o StatusRegs[i][1] \o "+" \o StatusRegs[j][1],
+      df |-> df, seal |-> FALSE, wins |-> <<>>,
+      pins |-> << <<0, 5, df>> >> \o [k \in 1..Len(order) |-> <<32 + order[k][1], 1, order[k][2]>>],
+      free |-> Tail(Lay(0, HdrLong(df))) \o [k \in 1..Len(runs) |-> <<32 + runs[k][1], runs[k][2]>>]
+               \o << <<88, 24>> >>]
+
+(* 13-bit altitude codes that make the header AC and an MB laid out as BDS *)
+(* 0,5 agree: the 25-ft codes (M = 0, Q = 1) of N = 1560 (38000 ft) and N = *)
+(* 2047, and the Gillham code 0620 (C2, B2, B4 pulses); the 12-bit ME       *)
+(* altitude is the AC field without its M bit.                              *)
+AC13OfN(n) == (n \div 32) * 128 + ((n \div 16) % 2) * 32 + 16 + (n % 16)
+AC13Samples == {AC13OfN(1560), AC13OfN(2047), 1024 + 8 + 2}
 AC12Of(ac13) == (ac13 \div 128) * 64 + (ac13 % 64)
 
 CommBShapes(df) ==
-  LET zero == {CommBShape("zero", df, <<16, 16, 16, 8>>, (1 :> 0) @@ (2 :> 0) @@ (3 :> 0) @@ (4 :> 0))}
-      any == {CommBShape("any", df, <<8, 16, 16, 16>>, <<>>)}
-      \* BDS 1,0: register number, continuation, 5 reserved, OVC, ACAS, subnetwork version (7),
-      \* enhanced protocol, specific services, uplink/downlink ELM (3, 4), identification,
-      \* squitter, SIC, GICB, ACAS (4), DTE (16)
-      b10 == {CommBShape("10" \o (IF z = 1 THEN ".rz" ELSE ".rf"), df,
-                         <<8, 1, 5, 1, 1, 7, 1, 1, 3, 4, 1, 1, 1, 1, 4, 16>>,
-                         Merge((1 :> 16), IF z = 1 THEN (3 :> 0) ELSE <<>>)) : z \in 0..1}
+  LET w3 == <<40, 56, 72>>
+      w4 == <<32, 48, 64, 72>>
+      win(s, w) == IF df = 20 THEN WithWins(s, w) ELSE s
+      zero == {CommBShape("zero", df, <<16, 16, 16, 8>>, (1 :> 0) @@ (2 :> 0) @@ (3 :> 0) @@ (4 :> 0))}
+      fs == {MkShape(Str(df) \o ".mbany.fs" \o Str(x), df, HdrLong(df) \o <<8, 16, 16, 16>> \o Tail24,
+                     (1 :> df) @@ (2 :> x), FALSE) : x \in 0..7}
+      \* BDS 1,0: register number 8, continuation, reserved 5, OVC, ACAS, subnetwork version 7,
+      \* enhanced protocol, specific services, uplink / downlink ELM 3 + 4, identification,
+      \* squitter, SIC, GICB, ACAS 4, DTE 16
+      b10 == {LET s == CommBShape("10" \o (IF z = 1 THEN ".rz" ELSE ".rf"), df,
+                                  <<8, 1, 5, 1, 1, 7, 1, 1, 3, 4, 1, 1, 1, 1, 4, 16>>,
+                                  Merge((1 :> 16), IF z = 1 THEN (3 :> 0) ELSE NoPins))
+              IN IF z = 1 THEN win(s, w3) ELSE s : z \in 0..1}
       \* BDS 1,7: 24 capability flags (bit 7: register 2,0), 32 reserved zero bits
-      b17 == {CommBShape("17" \o (IF z = 1 THEN ".rz" ELSE ".rf"), df,
-                         <<6, 1, 1, 16, 16, 16>>,
-                         Merge((2 :> 1), IF z = 1 THEN (5 :> 0) @@ (6 :> 0) ELSE <<>>)) : z \in 0..1}
-      \* BDS 1,8: bit (57 - n) announces register n; 1,7 1,8 1,9 and 2,0 are installed whenever
-      \* the report is served: bits 34, 33, 32 and 25
-      b18 == {CommBShape("18", df, <<8, 16, 1, 6, 3, 6, 16>>, (3 :> 1) @@ (5 :> 7))}
-      b19 == {CommBShape("19", df, <<8, 16, 16, 16>>, <<>>) }
+      b17 == {LET s == CommBShape("17" \o (IF z = 1 THEN ".rz" ELSE ".rf"), df, <<6, 1, 1, 16, 16, 16>>,
+                                  Merge((2 :> 1), IF z = 1 THEN (5 :> 0) @@ (6 :> 0) ELSE NoPins))
+              IN IF z = 1 THEN win(s, <<32, 40>>) ELSE s : z \in 0..1}
+      \* BDS 1,8: bit (57 - n) announces register n (n = 1..56); registers 1,7 1,8 1,9 and 2,0
+      \* are installed whenever the report is served: bits 34, 33, 32 and 25
+      b18 == {win(CommBShape("18", df, <<8, 16, 1, 6, 3, 6, 16>>, (3 :> 1) @@ (5 :> 7)), w4)}
+      \* BDS 1,9: registers 0x39..0x70, nothing fixed
+      b19 == {CommBShape("19", df, <<8, 16, 16, 16>>, NoPins)}
       \* BDS 2,0
-      b20 == {CommBShape("20", df, <<8>> \o Ident, (1 :> 32))}
-      \* BDS 3,0: ARA (14 = 1 + 6 + 7), RAC (4), RAT, MTE, TTI (2), TID (26)
-      b30 == {CommBShape("30.tti" \o Str(t), df,
-                         <<8, 1, 1, 1, 1, 1, 1, 1, 7, 1, 1, 1, 1, 1, 1, 2>> \o
-                         (CASE t = 1 -> <<24, 2>> [] t = 2 -> <<13, 7, 6>> [] OTHER -> <<16, 10>>),
-                         (1 :> 48) @@ (16 :> t)) : t \in 0..3}
+      b20 == {win(CommBShape("20", df, <<8>> \o Ident, (1 :> 32)), w3)}
+      \* BDS 3,0: ARA 14 = 1 + 6 + 7, RAC 4, RAT, MTE, TTI 2, TID 26
+      b30 == {win(CommBShape("30.tti" \o Str(t), df,
+                             <<8, 1, 1, 1, 1, 1, 1, 1, 7, 1, 1, 1, 1, 1, 1, 2>> \o
+                             (CASE t = 1 -> <<24, 2>> [] t = 2 -> <<13, 7, 6>> [] OTHER -> <<16, 10>>),
+                             (1 :> 48) @@ (16 :> t)), w3) : t \in 0..3}
       \* registers with status bits: every availability pattern
       regs == UNION {
-                {CommBShape(StatusRegs[k][1] \o ".s" \o DigitStr(BitsOfSet(S, 1, Len(StatusRegs[k][2].st))),
-                            df, StatusRegs[k][2].ws, RegPins(StatusRegs[k][2], S))
+                {LET r == StatusRegs[k][2]
+                     s == CommBShape(StatusRegs[k][1] \o ".s" \o PatternStr(S, 1, Len(r.st)), df,
+                                     r.ws, RegPins(r, S))
+                 IN IF S = 1..Len(r.st) THEN win(s, w4) ELSE s
                    : S \in SUBSET (1..Len(StatusRegs[k][2].st))}
-                : k \in 1..Len(StatusRegs)}
-      \* two registers at once, everything available, when the bit patterns do not contradict
-      pairs == {LET A == AllOn(StatusRegs[p[1]][2])
-                    B == AllOn(StatusRegs[p[2]][2])
-                    U == A \cup B
-                    pinnedBits == {u[1] : u \in U}
-                    runs == Runs(pinnedBits, 0, -1)
-                    order == SortSeq(SetToSeqOfBits(U), LAMBDA a, b : a[1] < b[1])
-                IN [cls |-> Str(df) \o ".mb" \o StatusRegs[p[1]][1] \o "+" \o StatusRegs[p[2]][1],
-                    df |-> df, seal |-> FALSE, kind |-> "shape", wins |-> <<>>,
-                    pins |-> << <<0, 5, df>> >> \o [i \in 1..Len(order) |-> <<32 + order[i][1], 1, order[i][2]>>],
-                    free |-> Lay(5, Tail(HdrLong(df))) \o [i \in 1..Len(runs) |-> <<32 + runs[i][1], runs[i][2]>>]
-                             \o << <<88, 24>> >>]
-                  : p \in {q \in (1..Len(StatusRegs)) \X (1..Len(StatusRegs)) :
+                : k \in 1..NRegs}
+      \* two registers at once, everything available, when the patterns do not contradict
+      pairs == {PairShape(df, p[1], p[2])
+                  : p \in {q \in (1..NRegs) \X (1..NRegs) :
                              q[1] < q[2] /\ Compatible(AllOn(StatusRegs[q[1]][2]), AllOn(StatusRegs[q[2]][2]))}}
-      \* MB laid out as an extended squitter ME field: airborne position with the header's
-      \* altitude (DF20), operational status with category 0/1, every version
-      pos == {CommBShapePos(df, tc, ac) : tc \in (9..18) \cup (20..22), ac \in AC13Samples}
-      ops == {CommBShape("tc31.st" \o Str(st) \o ".v" \o Str(v) \o (IF z = 1 THEN ".rz" ELSE ".rf"), df,
-                         MELayout(31),
-                         Merge((1 :> 31) @@ (2 :> st),
-                               Merge((OpStatusVersionIdx :> v), IF z = 1 THEN OpStatusReservedZero ELSE <<>>)))
+      \* MB laid out as an extended squitter ME field: airborne position repeating the header's
+      \* 13-bit code; operational status of category 0 / 1, every version
+      pos == {MkShape(Str(df) \o ".mbtc" \o Str(tc) \o ".ac" \o Str(ac), df,
+                      HdrLong(df) \o MELayout(tc) \o Tail24,
+                      Merge((1 :> df) @@ (5 :> ac), Shift((1 :> tc) @@ (3 :> AC12Of(ac)), 5)), FALSE)
+                : tc \in (9..18) \cup (20..22), ac \in AC13Samples}
+      ops == {CommBShape(OpName(st, v, z), df, MELayout(31), OpPins(st, v, z))
                 : st \in 0..1, v \in 0..7, z \in 0..1}
-  IN zero \cup any \cup b10 \cup b17 \cup b18 \cup b19 \cup b20 \cup b30 \cup regs \cup pairs \cup pos \cup ops
+  IN zero \cup fs \cup b10 \cup b17 \cup b18 \cup b19 \cup b20 \cup b30 \cup regs \cup pairs \cup pos \cup ops
 
+AllShapes == BaseShapes \cup ESShapes(17) \cup ESShapes(18) \cup CommBShapes(20) \cup CommBShapes(21)
+
+(* ------------------------------------------------------------------ *)
+(* Well-formedness of a shape (checked for every shape by MC_ModeSFrame) *)
+(* ------------------------------------------------------------------ *)
+FieldBits(off, w) == off..(off + w - 1)
+ShapeFields(s) == [k \in 1..(Len(s.pins) + Len(s.free)) |->
+                     IF k <= Len(s.pins) THEN <<s.pins[k][1], s.pins[k][2]>> ELSE s.free[k - Len(s.pins)]]
+ShapeWF(s) ==
+  LET F == ShapeFields(s)
+      nbits == 8 * LenFor(s.df)
+  IN /\ s.df \in 0..31
+     /\ \A k \in 1..Len(F) : F[k][2] \in 1..24 /\ F[k][1] >= 0 /\ F[k][1] + F[k][2] <= nbits
+     /\ \A k \in 1..Len(s.pins) : s.pins[k][3] \in 0..(2 ^ s.pins[k][2] - 1)
+     \* the fields partition the frame
+     /\ SumSeq([k \in 1..Len(F) |-> F[k][2]]) = nbits
+     /\ \A a, b \in 1..Len(F) : a < b => FieldBits(F[a][1], F[a][2]) \cap FieldBits(F[b][1], F[b][2]) = {}
+     \* the first pin is the DF field, no pin touches the last 24 bits
+     /\ s.pins[1] = <<0, 5, s.df>>
+     /\ \A k \in 1..Len(s.pins) : s.pins[k][1] + s.pins[k][2] <= nbits - 24
+     /\ \A k \in 1..Len(s.wins) : s.wins[k] >= 8 /\ s.wins[k] + 16 <= nbits - 24
 =============================================================================
